@@ -38,6 +38,7 @@ from .. import common, tlc
 JVM = {"JAVA_TOOL_OPTIONS": "-Xmx8g -Xss64m"}  # a bounded heap: the default (1/4 of RAM) is mostly page-faulted away
 INVARIANTS = ["C04_RoundTrip", "C04_XmlInverse", "C04_OptionsNeutral", "C04_WrongRootRejected", "C04_Agree"]
 NOELEM = {"tag": [], "ty": "absent", "text": [], "kids": []}
+COLON_SIG = "xml:key-with-colon"  # known finding C04-xml-colon-key (signature regex ^xml:key-with-colon$)
 
 _CINCO = None  # the library under test (set by run(); inherited by forked workers)
 
@@ -247,7 +248,8 @@ def check_session(case, plan):
         for what in whats:
             problems.append(
                 {
-                    "signature": "conf:%s:%s" % (fmt, what),
+                    # the specification names the cause (CincoFormats!ColonCause, exported as case["colon"])
+                    "signature": COLON_SIG if (fmt == "xml" and case.get("colon")) else "conf:%s:%s" % (fmt, what),
                     "summary": "spec->code: %s %s / loads %s on tree %s: %s (spec: %s, code: %s)"
                     % (fmt, kwargs(fmt, p["opts"]), kwargs(fmt, p["lopts"]), short(tree_py, 120), what,
                        short((spec_out if not spec_out.get("same") else "the same tree") if what != "element" else elem_norm(r["elem"]), 200),
@@ -283,7 +285,7 @@ _PRINT_RE = re.compile(r'^<<"CASE", "(.*)">>$')
 def _work(args):
     lines, plan = args
     out = {"sessions": 0, "runs": 0, "skipped": 0, "nontrivial": 0, "problems": [], "nproblems": 0, "elems": 0, "elem_unmodelled": 0,
-           "drift": [], "sample": None, "wrongroot_rejected": 0, "by_fmt": {}}
+           "drift": [], "sample": None, "wrongroot_rejected": 0, "by_fmt": {}, "colon": [], "ncolon": 0}
     for line in lines:
         case = json.loads(json.loads('"' + _PRINT_RE.match(line).group(1) + '"'))
         if case["mode"] == "elem":
@@ -306,6 +308,11 @@ def _work(args):
                 out["by_fmt"][p["fmt"]] = out["by_fmt"].get(p["fmt"], 0) + 1
                 if not r["out"]["ok"]:
                     out["wrongroot_rejected"] += 1
+        colon = [p for p in problems if p["signature"] == COLON_SIG]
+        problems = [p for p in problems if p["signature"] != COLON_SIG]
+        out["ncolon"] += len(colon)
+        if colon and len(out["colon"]) < 2:
+            out["colon"].append(colon[0])
         out["nproblems"] += len(problems)
         if len(out["problems"]) < 20:
             out["problems"] += problems[:20]
@@ -325,7 +332,7 @@ def spec_to_code(stdout, plan, procs):
     else:
         parts = [_work(c) for c in chunks]
     tot = {"sessions": 0, "runs": 0, "skipped": 0, "nontrivial": 0, "problems": [], "nproblems": 0, "elems": 0, "elem_unmodelled": 0,
-           "drift": [], "sample": None, "wrongroot_rejected": 0, "by_fmt": {}}
+           "drift": [], "sample": None, "wrongroot_rejected": 0, "by_fmt": {}, "colon": [], "ncolon": 0}
     for part in parts:
         for k, v in part.items():
             if k == "sample":
@@ -435,7 +442,11 @@ def rnd_leaf(rng, flav):
 
 def rnd_key(rng, flav):
     if flav["xml"]:
-        return rnd_name(rng)
+        name = rnd_name(rng)
+        if flav["colon"] and rng.random() < 0.4:
+            # an XML Name with a colon (known finding C04-xml-colon-key)
+            name = rng.choice([name + ":" + rnd_name(rng), ":" + name, name + ":", "xml:" + name, "a:b"])
+        return name
     if rng.random() < 0.5:
         return rnd_name(rng)
     s = rnd_text(rng, flav["text"], 12)
@@ -481,7 +492,7 @@ def _driver_block(args):
     cases = []
     for _ in range(n):
         xml = rng.random() < 0.6
-        flav = {"xml": xml, "text": XML_TEXT if xml else ANY_TEXT, "bigint": rng.random() < 0.25}
+        flav = {"xml": xml, "text": XML_TEXT if xml else ANY_TEXT, "bigint": rng.random() < 0.25, "colon": xml and rng.random() < 0.06}
         tree = rnd_dict(rng, flav, rng.choice([1, 2, 2, 3, 4, 5]))
         if not tree and rng.random() < 0.8:
             tree[rnd_key(rng, flav)] = rnd_value(rng, flav, 3)
@@ -580,6 +591,8 @@ def run(tier, seed):
     phases["spec_to_code"] = round(timer.elapsed(), 1)
     for p in s2c["problems"][:40]:
         out.violation(p["signature"], p["summary"], p["replay"])
+    for p in s2c["colon"][:3]:
+        out.violation(p["signature"], p["summary"], p["replay"])
     if res.ok and (s2c["runs"] == 0 or s2c["wrongroot_rejected"] == 0 or len(s2c["by_fmt"]) != 5):
         raise tlc.TLCError("vacuous instance: %s" % {k: s2c[k] for k in ("runs", "wrongroot_rejected", "by_fmt")})
     for msg in s2c["drift"][:10]:
@@ -590,7 +603,23 @@ def run(tier, seed):
     cases = driver(seed, n_rand, procs)
     phases["driver"] = round(timer.elapsed(), 1)
     bad, tstates, tchecked = validate_traces(cases, 500 if tier == "quick" else 2500, 4)
-    for case, flags in bad[:40]:
+    trace_colon = 0
+    reported = 0
+    for case, allflags in bad:
+        colon = [f for f in allflags if f["c"] == COLON_SIG]
+        flags = [f for f in allflags if f["c"] != COLON_SIG]
+        if colon:
+            trace_colon += len(colon)
+            if trace_colon == len(colon):  # first occurrence only: they are all the same finding
+                r = case["runs"][colon[0]["i"] - 1]
+                out.violation(
+                    COLON_SIG,
+                    "code->spec: random tree %s: xml %s -> %s (a map key contains ':')" % (short(to_py(case["t"]), 160), kwargs("xml", r["opts"]), short(r["out"], 120)),
+                    {"kind": "format-trace", "case": case, "flags": colon},
+                )
+        if not flags or reported >= 40:
+            continue
+        reported += 1
         names = sorted(set(f["c"] for f in flags))
         i = flags[0]["i"]
         r = case["runs"][i - 1] if i else None
@@ -601,6 +630,7 @@ def run(tier, seed):
                                                    "" if r is None else " (first: %s %s -> %s)" % (r["fmt"], kwargs(r["fmt"], r["opts"]), short(r["out"], 160))),
             {"kind": "format-trace", "case": case, "flags": flags},
         )
+    bad_other = sum(1 for _, fl in bad if any(f["c"] != COLON_SIG for f in fl))
     phases["trace_validation"] = round(timer.elapsed(), 1)
     rand_runs = sum(len(c["runs"]) for c in cases)
     out.coverage = {
@@ -622,7 +652,8 @@ def run(tier, seed):
         "code_to_spec_runs": rand_runs,
         "code_to_spec_runs_checked_by_tlc": tchecked,
         "code_to_spec_tlc_states": tstates,
-        "code_to_spec_bad_cases": len(bad),
+        "code_to_spec_bad_cases": bad_other,
+        "known_finding_xml_colon_key_runs": {"spec_to_code": s2c["ncolon"], "code_to_spec": trace_colon},
         "traces_validated_against_impl": s2c["sessions"] + s2c["elems"] + len(cases),
         "evaluations": s2c["runs"] + s2c["elems"] + rand_runs,
         "distinct_nontrivial": s2c["nontrivial"] + sum(len(c["runs"]) for c in cases if c["t"]["kv"]),
@@ -639,10 +670,11 @@ def run(tier, seed):
         "0.0 and -0.0 are DIFFERENT (sign-of-zero aware), the order of a map's keys is not data (yaml.dump sorts keys)",
         "floats are half-integers below 2^30, +-inf, nan, -0.0; other doubles and ints beyond 2^31 are carried by their "
         "repr / decimal digits (float(repr(x)) == x and int(str(n)) == n are Python guarantees, not modelled)",
-        "XML domain: strings of XML 1.0 Chars without CR (form feed and other C0 controls are not Chars); keys and root "
-        "tags are colon-free names (NCNames: 'a:b' is a Name but ElementTree/expat treat the colon as a namespace "
-        "prefix and dumps raises) built from name characters valid in every edition of XML 1.0 (expat implements the "
-        "4th-edition tables); the class of non-ASCII characters is fixed by the driver's generators, the model "
+        "XML domain: strings of XML 1.0 Chars without CR (form feed and other C0 controls are not Chars); keys are XML "
+        "Names, colon included (failures of XML runs on trees with a colon key are the known finding "
+        "C04-xml-colon-key, signature xml:key-with-colon; the specification keeps the intended round trip); root tags "
+        "are colon-free names; non-ASCII name characters are those valid in every edition of XML 1.0 (expat implements "
+        "the 4th-edition tables); the class of non-ASCII characters is fixed by the driver's generators, the model "
         "classifies ASCII only",
         "BSON domain: signed 64-bit ints; element names without NUL (py-bson writes C strings); lone surrogates are "
         "excluded everywhere (not encodable as UTF-8)",
